@@ -436,9 +436,9 @@ tfpdeftests:
 |	tfpdeftests ',' tfpdeftest
 	{
 		$$ = append($$, $3)
-		if $<expr>3 != nil {
-			$<exprs>$ = append($<exprs>$, $<expr>3)
-		}
+		// keyword only defaults stay aligned with the
+		// arguments: nil where there is no default
+		$<exprs>$ = append($<exprs>$, $<expr>3)
 	}
 
 tfpdeftests1:
@@ -529,9 +529,9 @@ vfpdeftests:
 |	vfpdeftests ',' vfpdeftest
 	{
 		$$ = append($$, $3)
-		if $<expr>3 != nil {
-			$<exprs>$ = append($<exprs>$, $<expr>3)
-		}
+		// keyword only defaults stay aligned with the
+		// arguments: nil where there is no default
+		$<exprs>$ = append($<exprs>$, $<expr>3)
 	}
 
 vfpdeftests1:
